@@ -590,6 +590,12 @@ func (x *Enc) pureCall(key string, args []Val, atypes []types.Type, rt types.Typ
 	out := Val{ts: make([]Term, len(ls))}
 	for i, l := range ls {
 		fn := sym(fmt.Sprintf("pure!%s!%d", cleanKey(key), i))
+		want := fmt.Sprintf("(declare-fun %s (%s) %s)", fn, strings.Join(sorts, " "), l.Sort.String())
+		if have, declared := x.sc.decls[fn]; declared && have != want {
+			// the same function value / callee is applied with another argument shape elsewhere (e.g. a clause written
+			// for an older signature): a different uninterpreted function, never an ill-sorted script
+			fn = sym(fmt.Sprintf("pure!%s!%d!a%d", cleanKey(key), i, len(sorts)))
+		}
 		x.sc.declFun(fn, sorts, l.Sort.String())
 		out.ts[i] = app(fn, ts...)
 	}
